@@ -524,6 +524,14 @@ where
         #[cfg(debug_assertions)]
         tracing::trace!(id=%self.id, "drop for checkout");
 
+        // A connection taken out of the pool but never handed to the caller goes back.
+        if let Some(connection) = self.as_mut().project().connection.take() {
+            if let Some(mut pool) = self.pool.lock() {
+                trace!("unused connection returned to pool");
+                pool.push(self.token, connection, self.pool.clone());
+            }
+        }
+
         if let Some(checkout) = self.as_mut().as_delayed() {
             tokio::task::spawn(async move {
                 if let Err(err) = checkout.await {
